@@ -18,7 +18,7 @@ META = {
 def jobs(tier):
     q = tier == "quick"
     out = []
-    temps = ["t_macro_sub", "t_alias_macro", "t_blocks"] if q else ["t_macro_sub", "t_alias_macro", "t_blocks", "t_loop_sub", "t_float"]
+    temps = ["t_macro_sub", "t_alias_macro", "t_loop_sub", "t_seqfirst"] if q else ["t_macro_sub", "t_alias_macro", "t_blocks", "t_loop_sub", "t_seqfirst", "t_float"]
     n = len(OPS)
     for t in temps:
         shrink = {}
